@@ -70,23 +70,24 @@ def _parent_lookup_helpers(P):
         vals = [v for v in vals if v not in ("std::nullopt", "{}")]
         if not vals:
             continue
-        m = [re.match(r"^param:(\w+)\.addToCacheAndGet\(param:(\w+)\.getParent\(\)\)$", v) for v in vals]
-        if all(m) and len({(x.group(1), x.group(2)) for x in m}) == 1:
+        m = [re.match(r"^param:(\w+)\.addToCacheAndGet\(param:(\w+)(\.getParent\(\))?\)$", v) for v in vals]
+        if all(m) and len({(x.group(1), x.group(2), x.group(3)) for x in m}) == 1:
             names = [p_["name"] for p_ in h.params]
             if m[0].group(1) in names and m[0].group(2) in names:
-                out.append((h.name, names.index(m[0].group(1)), names.index(m[0].group(2))))
+                # (the helper may take the cgroup and ask for its parent itself, or be handed the parent's path)
+                out.append((h.name, names.index(m[0].group(1)), names.index(m[0].group(2)), bool(m[0].group(3))))
     P.__dict__["_parent_lookup_helpers"] = out
     return out
 
 
 def _subst_parent_lookup(P, t):
-    for name, ic, ig in _parent_lookup_helpers(P):
+    for name, ic, ig, asks_parent in _parent_lookup_helpers(P):
         def rep(mm):
-            args = [a.strip() for a in mm.group(1).split(",")]
+            args = [a.strip() for a in re.split(r",\s*(?![^()]*\))", mm.group(1))]
             if max(ic, ig) >= len(args):
                 return mm.group(0)
-            return "%s.addToCacheAndGet(%s.getParent())" % (args[ic], args[ig])
-        t = re.sub(r"(?:\b[\w:]*::)?\b%s\(([^()]*)\)" % re.escape(name), rep, t)
+            return "%s.addToCacheAndGet(%s%s)" % (args[ic], args[ig], ".getParent()" if asks_parent else "")
+        t = re.sub(r"(?:\b[\w:]*::)?\b%s\(((?:[^()]|\([^()]*\))*)\)" % re.escape(name), rep, t)
     return t
 
 
